@@ -56,8 +56,8 @@ Theorem C31_eq_same_rgba : forall x y,
 Proof. exact rgba_cmp_same. Qed.
 Print Assumptions C31_eq_same_rgba.
 
-(* round trips, partial (finite sweeps): every named colour survives rgb -> hsl -> rgb and
-   rgb -> hwb -> rgb within the comparison tolerance 1e-7 unless red = green > blue (F33);
+(* round trips, partial (finite sweeps): EVERY named colour survives rgb -> hsl -> rgb and
+   rgb -> hwb -> rgb within the comparison tolerance 1e-7 (no exception any more: F33 is fixed);
    all 256 greys survive and get saturation 0 *)
 Theorem C31_roundtrip_named_partial : forall e, In e color_table -> entry_rt e = true.
 Proof. exact (Base.ListX.sweep1 color_table entry_rt named_rt_sweep). Qed.
@@ -66,15 +66,12 @@ Theorem C31_roundtrip_gray_partial : forall g, In g grays -> gray_rt g = true.
 Proof. exact (Base.ListX.sweep1 grays gray_rt gray_rt_sweep). Qed.
 Print Assumptions C31_roundtrip_gray_partial.
 
-(* F33: yellow is converted to hsl as black; every table colour with red = green > blue comes out grey *)
-Theorem C31_refuted_roundtrip :
+(* the former counterexample of F33: yellow is hsl(60, 100%, 50%) again *)
+Theorem C31_yellow_fixed :
   let c := rgba_from_bytes 255 255 0 in
-  k6_rgba c = true /\ feq (h_lum (hsla_of_rgba c)) f_zero = true /\ rt_hsl c = false.
-Proof. exact refuted_yellow. Qed.
-Print Assumptions C31_refuted_roundtrip.
-Theorem C31_k6_is_grey : forall e, In e color_table -> entry_k6 e = true.
-Proof. exact (Base.ListX.sweep1 color_table entry_k6 k6_sweep). Qed.
-Print Assumptions C31_k6_is_grey.
+  feq (h_lum (hsla_of_rgba c)) f_half = true /\ feq (h_hue (hsla_of_rgba c)) f60 = true /\ rt_hsl c = true.
+Proof. exact yellow_fixed. Qed.
+Print Assumptions C31_yellow_fixed.
 
 Example C31_nonvacuous : In ("aliceblue"%string, 15792383) color_table /\ In 128 grays.
 Proof.
